@@ -16,12 +16,16 @@ VARIABLES l, ev,
 vars == <<l, ev, okArr, tseed>>
 Null == [ev |-> "none"]
 
+(* a delivery is a genuine share of its sender for the view's (round, timeout count): kind "ok"; and, when  *)
+(* T = 1, also another party's share (polynomials of degree 0: every party holds the same key)              *)
+VrfGenuine(e) == e.kind = "ok" \/ (e.kind = "other" /\ e.t = 1)
+
 TraceInit == l = 1 /\ ev = Null /\ okArr = {} /\ tseed = 0
 TraceStep ==
   /\ l <= Len(Trace) /\ l' = l + 1 /\ ev' = Trace[l]
   /\ LET e == Trace[l] IN
        /\ okArr' = CASE e.ev \in {"Reset", "VrfView"} -> {}
-                      [] e.ev = "VrfAdd" -> (IF e.kind = "ok" THEN okArr \cup {e.j} ELSE okArr)
+                      [] e.ev = "VrfAdd" -> (IF VrfGenuine(e) THEN okArr \cup {e.j} ELSE okArr)
                       [] OTHER -> okArr
        /\ tseed' = CASE e.ev = "Reset" -> 0
                       [] e.ev = "VrfAdd" -> (IF e.has_seed /\ tseed = 0 THEN e.seed_id ELSE tseed)
@@ -95,7 +99,7 @@ HarnessThrShape == (IsDeal \/ IsCombine \/ IsSos) =>
 (* One trace = one (DKG, round, timeout count, previous seed); a "view" is one miner (its own DKG object, a  *)
 (* fresh round object) receiving shares through the real miner.Chain.AddVRFShare: view A the arrival history *)
 (* enumerated by TLC from VRFSeed.tla, view B another miner receiving all genuine shares in reverse order.   *)
-(* kind "ok" is the only genuine share for the view's (round, timeout count).                                *)
+(* Genuine deliveries: VrfGenuine above.                                                                     *)
 IsAdd == ev.ev = "VrfAdd"
 (* shares that fail verification are never counted; never more than T are kept *)
 C33_NeverCountInvalid == (IsAdd /\ ~IsKnown(ev)) => (ElemsOf(ev.stored) \subseteq okArr /\ Len(ev.stored) <= ev.t)
